@@ -488,8 +488,8 @@ func (m *monitor) history(i int, rnd *rand.Rand, steps, searches int) {
 			}
 		// Known finding (via=domain): with REPLACE / ON DUPLICATE KEY UPDATE the row that is first rejected by the
 		// duplicate key leaves its words (and its row hash) in the index tables. In the core domain REPLACE and
-		// ODKU therefore only meet fresh keys; the colliding forms are replayed as pinned witnesses. A plain or
-		// IGNORE insert that collides is handled correctly by the engine and stays in the domain.
+		// ODKU therefore only meet fresh keys; the colliding forms are replayed as pinned witnesses. A plain insert
+		// that collides fails as a whole, is cleaned up by the engine and stays in the domain.
 		case op < 82 && ts.key != keyNone:
 			q = "REPLACE INTO ft VALUES " + insertVals(nextID)
 			nextID++
@@ -497,12 +497,11 @@ func (m *monitor) history(i int, rnd *rand.Rand, steps, searches int) {
 			q = "INSERT INTO ft VALUES " + insertVals(nextID) + " ON DUPLICATE KEY UPDATE d1 = " + lit(genDoc(rnd))
 			nextID++
 		case op < 90 && ts.key != keyNone:
-			// a multi-row insert whose last row collides (fails or, with IGNORE, skips the row)
-			ign := ""
-			if rnd.Intn(2) == 0 {
-				ign = "IGNORE "
-			}
-			q = "INSERT " + ign + "INTO ft VALUES " + insertVals(nextID) + ", " + insertVals(ids())
+			// a multi-row insert whose last row collides: the statement fails and must leave table and index
+			// in agreement. (INSERT IGNORE of a colliding row is part of the known finding above: the skipped
+			// row's words stay counted in the global-count table; pinned witness.)
+			_ = rnd.Intn(2)
+			q = "INSERT INTO ft VALUES " + insertVals(nextID) + ", " + insertVals(ids())
 			nextID++
 		case op < 92:
 			q = "TRUNCATE TABLE ft"
@@ -611,6 +610,10 @@ func pinned(r *core.Run) {
 		{"replace-shared-word-lost-from-index", "REPLACE (2,'moon quick') over (2,'moon') loses 'moon' from the index",
 			[]string{"CREATE TABLE ft (id INT PRIMARY KEY, d1 TEXT COLLATE utf8mb4_0900_ai_ci, other INT, FULLTEXT KEY ftx (d1))", "INSERT INTO ft VALUES (1, 'cafe quick', 4), (2, 'moon', 1)",
 				"REPLACE INTO ft VALUES (2, 'moon quick', 3)"}, "SELECT id FROM ft WHERE MATCH(d1) AGAINST ('moon')", []string{"2"}},
+		{"insert-ignore-rejected-row-inflates-global-count", "three INSERT IGNORE of a colliding row (2,'apple …') leave 'apple' counted in the global-count table; after DELETE of row 2 the relevance of row 1 for 'apple' is negative",
+			[]string{"CREATE TABLE ft (id INT PRIMARY KEY, d1 TEXT COLLATE utf8mb4_0900_ai_ci, other INT, FULLTEXT KEY ftx (d1))", "INSERT INTO ft VALUES (1, 'apple pie', 4), (2, 'moon', 1)",
+				"INSERT IGNORE INTO ft VALUES (2, 'apple tart', 1)", "INSERT IGNORE INTO ft VALUES (2, 'apple cake', 1)", "INSERT IGNORE INTO ft VALUES (2, 'apple crumble', 1)", "DELETE FROM ft WHERE id = 2"},
+			"SELECT id FROM ft WHERE MATCH(d1) AGAINST ('apple') > 0", []string{"1"}},
 	} {
 		e2 := core.NewEng("d")
 		s2 := e2.NewSess()
